@@ -6,7 +6,7 @@
 From DV Require Import Base.Prelude Model.NameM Model.TokM Model.RdTextM.
 From DV Require Import Proofs.NameValid Proofs.NameOrder Proofs.NameText.
 From DV Require Import Proofs.TokEsc Proofs.TokTxt Proofs.TokWords Proofs.TokDec Proofs.TokHex
-     Proofs.TokShape Proofs.TokGeneric Proofs.TokUtf8 Proofs.RdTextName Proofs.RdTextAddr Proofs.RdTextBitmap Proofs.RdTextTypes Proofs.RdTextB32 Proofs.RdTextSig Proofs.RdTextEui Proofs.RdText Proofs.RdTextRel.
+     Proofs.TokShape Proofs.TokGeneric Proofs.TokUtf8 Proofs.RdTextName Proofs.RdTextAddr Proofs.RdTextBitmap Proofs.RdTextTypes Proofs.RdTextB32 Proofs.RdTextSig Proofs.RdTextEui Proofs.RdTextFmtHex Proofs.RdText Proofs.RdTextRel.
 Open Scope Z_scope.
 
 (* ------------------------------------------------------------------ character-strings *)
@@ -244,6 +244,31 @@ Example eui_examples :
   /\ eui_from_text 6 [48;48;45;48;49;45;50;51;45;97;98;45;99;100;45;102] = Lib eSyntax
   /\ eui_from_text 6 [48;48;58;48;49;45;50;51;45;97;98;45;99;100;45;102;102] = Lib eSyntax
   /\ schema_of 108 = Some [FEui 6] /\ schema_of 109 = Some [FEui 8].
+Proof. repeat split; vm_compute; reflexivity. Qed.
+
+(* ------------------------------------------------------------------ NID / L64 *)
+
+(* dns/rdtypes/ANY/NID.py, L64.py keep the 64-bit value as the text xxxx:xxxx:xxxx:xxxx and validate it with
+   dns.rdtypes.util.parse_formatted_hex (after fix 18da675: hexadecimal digits only).  A validated text is
+   one tokenizer word (so it is printed and read back verbatim by the schema theorem), and the text the
+   constructor builds from 8 octets (from_wire) is valid. *)
+Theorem formatted_hex_text_is_word : forall t, fmthex_ok t = true -> forallb safe t = true /\ t <> [].
+Proof. exact fmthex_word. Qed.
+Print Assumptions formatted_hex_text_is_word.
+
+Theorem formatted_hex_of_octets_valid : forall b, all_bytes b = true -> length b = 8%nat ->
+  fmthex_ok (fmthex_of_bytes b) = true.
+Proof. exact fmthex_of_bytes_ok. Qed.
+Print Assumptions formatted_hex_of_octets_valid.
+
+Example formatted_hex_examples :
+  fmthex_of_bytes [0; 20; 79; 255; 255; 32; 238; 100]
+  = [48;48;49;52;58;52;102;102;102;58;102;102;50;48;58;101;101;54;52]                 (* 0014:4fff:ff20:ee64 *)
+  /\ fmthex_ok [50;48;48;49;58;48;68;66;56;58;49;49;52;48;58;49;48;48;48] = true       (* 2001:0DB8:1140:1000 *)
+  /\ fmthex_ok [32;49;50;51;58;48;48;48;48;58;48;48;48;48;58;48;48;48;48] = false      (* " 123:..." (before the fix: accepted) *)
+  /\ fmthex_ok [48;120;49;50;58;48;48;48;48;58;48;48;48;48;58;48;48;48;48] = false     (* 0x12:... *)
+  /\ fmthex_ok [50;48;48;49;58;48;68;66;56;58;49;49;52;48;45;49;48;48;48] = false      (* wrong separator *)
+  /\ schema_of 104 = Some [u16; FFmtHex] /\ schema_of 106 = Some [u16; FFmtHex].
 Proof. repeat split; vm_compute; reflexivity. Qed.
 
 (* ------------------------------------------------------------------ whole records *)
